@@ -73,6 +73,7 @@ type Contract struct {
 	LitRequires map[int][]*Clause // assumptions on the parameters of the N-th function literal
 	LitInvariants map[int][]*Clause // preserved by every invocation of the N-th function literal
 	LitOkInvariants map[int][]*Clause // preserved by every invocation that returns a nil error
+	usesCallRecords bool              // some clause reads calls()/lastarg()/lastres()
 }
 
 // SinkSpec: coarse-mode call-site rule (requires on calls matching a pattern).
@@ -513,6 +514,9 @@ func (cs *ContractSet) mkClause(text, file string, line int) (*Clause, error) {
 var specHeadRe = regexp.MustCompile(`^([A-Za-z_][A-Za-z0-9_]*)\(([^)]*)\)\s*([A-Za-z0-9_]+)\s*(?:=\s*(.*))?$`)
 
 func (cs *ContractSet) addClause(cur *Contract, kind string, loop int, text, file string, line int) error {
+	if cur != nil && (strings.Contains(text, "calls(") || strings.Contains(text, "lastarg(") || strings.Contains(text, "lastres(")) {
+		cur.usesCallRecords = true
+	}
 	switch kind {
 	case "pred":
 		// pred name(a, b) = expr : a contract-level macro over values
